@@ -11,6 +11,7 @@ import Rooc.Sem
 import Rooc.Proofs.Field
 import Rooc.Proofs.Pre
 import Rooc.Proofs.Iter
+import Rooc.Proofs.Program
 import Mathlib.Algebra.BigOperators.Group.List.Basic
 namespace Rooc.Props.C06
 set_option linter.unusedSectionVars false
@@ -216,6 +217,27 @@ example :
     | error e => simp [unroll, iterate, envs, It.shapeOk, declareAll, Env.get, Src.rows, CE.eval, rangeVals, intsFrom, mapE, bindRow, unrollIdx, explicit] at h
     | ok e' => simp [unroll_is_flat [] _ e' h]
   · simp [expand, iterate, envs, It.shapeOk, declareAll, Env.get, Src.rows, CE.eval, rangeVals, intsFrom, mapE, bindRow, idxFrag, aggregate]
+
+/-- **whole programs** (`Rooc/Pre/Program.lean`: `where` constants, `define` declarations with
+iterations and evaluated bounds, duplicate detection, objective, named and `for`-quantified constraints,
+usage counts, references outside the domain): transforming a program gives exactly the `Model` —
+same constraints in the same order with the same names, same objective, same variable set, domains and
+usage counts — that transforming its hand-unrolled program gives; and one fails iff the other does.
+(`wf`: every declaration names at least one variable, which the grammar guarantees.) -/
+theorem program_expand_eq_unroll (p : ProgM) (hwf : p.wf = true) :
+    (transformCore p : Except IErr (Model α)).toOption = (unrollProg p >>= fun q => transformCore q).toOption := by
+  apply Rooc.Proofs.Program.transformCore_unroll
+  intro d hd
+  have := List.all_eq_true.mp hwf d hd
+  simp only [DeclM.wf, Bool.not_eq_true', List.isEmpty_eq_false_iff] at this
+  exact this
+
+/-- the hand-unrolled program has no `where` section and no iteration left -/
+theorem unrolled_program_is_plain (p q : ProgM) (h : unrollProg p = .ok q) :
+    q.consts = [] ∧ (∀ c ∈ q.cons, c.its = []) ∧ (∀ d ∈ q.decls, d.its = []) :=
+  Rooc.Proofs.Program.unrollProg_plain p q h
+
+example : (⟨[("n", .lit 2)], none, [⟨none, .var "z", some (.ge, .lit 0), []⟩], [⟨[.plain "z"], .real none, []⟩]⟩ : ProgM).wf = true := by decide
 
 end fragment
 
